@@ -18,7 +18,7 @@ func init() {
 	mc.Register(&mc.Property{
 		ID:    "C14",
 		Title: "The parser is total",
-		Rule: "(a) every valid script of the grammar-complete generator up to weight W; (b) deviation-bounded edits of each, in a one-line layout and in a one-token-per-line layout with mixed LF / CRLF endings: truncation at EVERY byte offset, deletion and duplication of every token, insertion before and replacement of every token by every entry of a 52-entry token alphabet (all token kinds, 25-digit numerals, 08%, 1/0, non-ASCII, unterminated string / comment, stray characters); (c) ALL token sequences of length <= L over that alphabet (token soups); " +
+		Rule: "(a) every valid script of the grammar-complete generator up to weight W; (b) deviation-bounded edits of each, in a one-line layout and in a one-token-per-line layout with mixed LF / CRLF endings: truncation at EVERY byte offset, deletion and duplication of every token, insertion before and replacement of every token by every entry of a " + alphaN + "-entry token alphabet (all token kinds, 25-digit numerals, 08%, 1/0, non-ASCII, unterminated string / comment, stray characters); (c) ALL token sequences of length <= L over that alphabet (token soups); " +
 			"oracle: Parse returns without panicking; the reference recognizer (maximal-munch lexer + Earley over the grammar of Numscript.g4) says valid => zero errors, invalid => >= 1 error; every error starts inside the text or at its end; ParseErrorsToString does not panic; " +
 			"non-trivial = the text is not a generator script as such (it was edited or is a soup); distinct = the text",
 		Assumptions: []string{"texts whose lexing depends on nested comment openers are not modelled by the reference lexer and are only checked for crashes and error positions", "the reference grammar is a transcription of Numscript.g4; its agreement with the generated parser on every explored text is itself part of what is checked"},
@@ -35,7 +35,11 @@ var tokenAlphabet = []string{
 	"1/2", "50%", "\"s\"", "ident", "5", "$v", "@a", "USD",
 	// exotic
 	"1234567890123456789012345", "99999999999999999999%", "1.8446744073709551616%", "123456789012345678901234567890/7", "7/123456789012345678901234567890", "9223372036854775808", "-9223372036854775809", "08%", "1/0", "\"é€\"", "é", "\"unterminated", "/* unterminated", "// c\n", "-7", "12.5%", "$1", "@", "%",
+	// blanks inside a ratio (each optional on its own); a line comment that runs to the end of the text
+	"1/ 6", "1 /6", "3 / 4", "// c",
 }
+
+var alphaN = strconv.Itoa(len(tokenAlphabet))
 
 // textSubject is shared by C14 (parser) and C18 (editor analysis): it enumerates the text
 // space and calls body(text, edited) for every text of this worker's shard.
@@ -56,7 +60,7 @@ func textSpace(w *mc.Worker, tier string, body func(text string, edited bool)) {
 		}
 		body(text, edited)
 	}
-	w.Stage(fmt.Sprintf("edits-w%d", weight), fmt.Sprintf("generator scripts of weight <= %d and all their single edits (every truncation, token deletion / duplication / insertion / replacement over the 52-entry alphabet)", weight), func() {
+	w.Stage(fmt.Sprintf("edits-w%d", weight), fmt.Sprintf("generator scripts of weight <= %d and all their single edits (every truncation, token deletion / duplication / insertion / replacement over the "+alphaN+"-entry alphabet)", weight), func() {
 		w.Outer(fmt.Sprintf("edits-w%d/script", weight), weight, func(o *mc.Explorer) {
 			prog := g.Program(o)
 			pr := gen.Print(prog)
@@ -107,7 +111,7 @@ func textSpace(w *mc.Worker, tier string, body func(text string, edited bool)) {
 			})
 		})
 	})
-	w.Stage(fmt.Sprintf("soups-L%d", soupLen), fmt.Sprintf("all token sequences of length <= %d over the 52-entry alphabet, space separated", soupLen), func() {
+	w.Stage(fmt.Sprintf("soups-L%d", soupLen), fmt.Sprintf("all token sequences of length <= %d over the "+alphaN+"-entry alphabet, space separated", soupLen), func() {
 		w.Outer(fmt.Sprintf("soups-L%d/first", soupLen), 0, func(o *mc.Explorer) {
 			first := tokenAlphabet[o.Choose(len(tokenAlphabet))]
 			n := 1 + o.Choose(soupLen)
